@@ -1,6 +1,6 @@
 (* C10 — transposition swaps outer and inner structure without losing or moving values. *)
-From OptreeModel Require Import Base Tree Flatten Unflatten Spec Ops.
-From OptreeProofs Require Import OpsProofs.
+From OptreeModel Require Import Base Tree Flatten Unflatten Spec Construct Ops.
+From OptreeProofs Require Import OpsProofs Subst TransposeProofs.
 
 (* tree_transpose groups the m*n leaves into m chunks of n and zips them: for ALL m, n > 0 the
    value at (inner j, outer i) of the result is the input value at (outer i, inner j) *)
@@ -50,6 +50,31 @@ Theorem C10_transpose_wrong_count :
     tree_transpose c outer inner t = Err TypeError.
 Proof. exact transpose_wrong_count. Qed.
 Print Assumptions C10_transpose_wrong_count.
+
+(* THE SHAPE. For outer / inner treespecs that are the treespecs of trees (under the configuration
+   tree_transpose itself flattens with) and a tree with m*n leaves, tree_transpose succeeds and returns
+   a well-formed tree whose treespec is the inner treespec with every leaf replaced by the outer
+   treespec — inner-of-outer — and whose leaves are the transposed values (C10_transpose_value says
+   which value sits where). No predicate. *)
+Theorem C10_transpose_is_inner_of_outer :
+  forall c outer inner o_out o_in lo spo li spi t ls sp,
+    let m := st_leaves (stree_of outer) in
+    let n := st_leaves (stree_of inner) in
+    let ct := {| c_nil := ss_nil outer;
+                 c_ns := if Z.eqb (ss_ns outer) 0 then ss_ns inner else ss_ns outer;
+                 c_pred := c_pred c; c_reg := c_reg c; c_ins := c_ins c; c_limit := c_limit c |} in
+    Bool.eqb (ss_nil outer) (ss_nil inner) = true -> m <> O -> n <> O ->
+    ns_compatible (ss_ns outer) (ss_ns inner) = true -> c_pred c = None ->
+    wf_stree (stree_of outer) = true -> wf_stree (stree_of inner) = true ->
+    wf_obj o_out = true -> wf_obj o_in = true -> wf_obj t = true ->
+    flatten ct o_out = Ok (lo, spo) -> trav spo = encode (stree_of outer) ->
+    flatten ct o_in = Ok (li, spi) -> trav spi = encode (stree_of inner) ->
+    flatten ct t = Ok (ls, sp) -> length ls = (m * n)%nat ->
+    exists r b, tree_transpose c outer inner t = Ok r /\ wf_obj r = true /\
+      tflat ct (S (c_limit c) + S (c_limit c)) r =
+        Ok (concat (zip_cols n (chunks n m ls)), st_compose (stree_of inner) (stree_of outer), b).
+Proof. exact transpose_tree. Qed.
+Print Assumptions C10_transpose_is_inner_of_outer.
 
 Example C10_example :
   zip_cols 2 (chunks 2 3 [1; 2; 3; 4; 5; 6]) = [[1; 3; 5]; [2; 4; 6]].
